@@ -22,4 +22,5 @@ INVARIANT StrictMcinSize
 INVARIANT ParseNeverFails
 INVARIANT ParseKeepsSubs
 INVARIANT RebuildKeepsOpts
+INVARIANT ParseKeepsOpts
 CHECK_DEADLOCK FALSE
